@@ -290,4 +290,6 @@ func addStats(a *raftdrv.Stats, b raftdrv.Stats) {
 	a.VoteGrantsSent += b.VoteGrantsSent
 	a.AcksSent += b.AcksSent
 	a.CommitQuorumChecks += b.CommitQuorumChecks
+	a.HeartbeatsChecked += b.HeartbeatsChecked
+	a.AppendsChecked += b.AppendsChecked
 }
